@@ -225,6 +225,52 @@ def gen_chaining(rng, n, nops):
     return [("block-chaining", [ln for ln in lines if ln])]
 
 
+def gen_refill(rng, n, variant):
+    """a matrix that already owns allocation blocks is emptied (clear, or being the destination of a copy /
+    conversion) and then filled beyond one block (1024 entries) again: recycled blocks, free list and block
+    chain of the emptied matrix are all in use at once"""
+    lines = []
+    pos = [(r, c) for r in range(n) for c in range(n)]
+    rng.shuffle(pos)
+    first = pos[:[3, 200, 1030][variant % 3]]
+    lines.append("salloc 0 %d %d" % (n, n))
+    lines.append("dalloc 0 %d %d" % (n, n))
+    if len(first) > 50:
+        lines.append("dload 0 %d %s %s" % (len(first), " ".join(str(p[0]) for p in first), " ".join(str(p[1]) for p in first)))
+        lines.append("d2s 0 0")
+    else:
+        for p in first:
+            lines.append("sins 0 %d %d" % p)
+    how = (variant // 3) % 3
+    if how == 0:
+        lines.append("sclear 0")
+    elif how == 1:
+        lines.append("salloc 1 %d %d" % (n, n))
+        lines.append("sins 1 0 0")
+        lines.append("scopy 1 0")
+    # how == 2: the conversion below empties the destination itself
+    rng.shuffle(pos)
+    second = pos[:1024 + rng.randint(1, n * n - 1024)]
+    lines.append("dfree 0")
+    lines.append("dalloc 0 %d %d" % (n, n))
+    lines.append("dload 0 %d %s %s" % (len(second), " ".join(str(p[0]) for p in second), " ".join(str(p[1]) for p in second)))
+    lines.append("d2s 0 0")
+    rest = [p for p in pos if p not in set(second)]
+    for _ in range(8):
+        if rest and rng.random() < 0.6:
+            lines.append("sins 0 %d %d" % rest.pop())
+        else:
+            lines.append("sdel 0 %d %d" % second[rng.randrange(len(second))])
+    lines.append("sclear 0")
+    for p in pos[:20]:
+        lines.append("sins 0 %d %d" % p)
+    lines.append("sq 0 %d %d" % (rng.randrange(n), rng.randrange(n)))
+    lines.append("sfree 0")
+    if how == 1:
+        lines.append("sfree 1")
+    return [("clear-and-refill", lines)]
+
+
 def from_simulation(bdir, num, depth, limit):
     behs, nstates = mxcommon.simulate_behaviours(bdir, "SparseSim", "SparseSim.cfg", num, depth, vlib.seed(), limit)
     out = []
@@ -270,6 +316,8 @@ def make_execs(bdir, tier, rng):
     execs += gen_random(rng, 120 if q else 1500, 60, medium, False, "random-unrestricted")
     for i in range(2 if q else 12):
         execs += gen_chaining(rng, 33 + (i % 3), 12 if q else 40)
+    for i in range(3 if q else 18):
+        execs += gen_refill(rng, 33 + (i % 3), i + (rng.randrange(9) if not q else 3 * rng.randrange(3)))
     sim, simstates = from_simulation(bdir, 20 if q else 300, 40, 60 if q else 1500)
     execs += sim
     return execs, alpha, simstates
